@@ -253,6 +253,71 @@ func verifC07XSign(version int32, maxAuth int) {
 	vrt.Assert(inList, "accepted-only-if-output-owner-signed")
 }
 
+// verifC07AccountInitiator: the initiator is a contract account; it is represented by 1..2 signature
+// slots whose claimed keys must satisfy the account's rule (Adr1 and Adr2) and each of which must carry
+// a valid signature over this content by the key it names.
+func verifC07AccountInitiator(version int32) {
+	e := vkit.NewEnv("c07a", vkit.Genesis("0", "9", "5"), nil)
+	st := c07stub()
+	vrt.CryptoClient = st
+	s := e.NewStateWith("live", st, c07acl{})
+	vrt.Assert(s.Play(e.Root.Blockid) == nil, "genesis-plays")
+	adr := func(k int64) string { return string([]byte{'A', 'd', 'r', c07digit(k)}) }
+	tx := &pb.Transaction{Version: version, Initiator: c07Account, Nonce: "n", Timestamp: 7, Desc: vrt.Bytes("desc", 1)}
+	owner := adr(vrt.Int("owner", 0, 2))
+	tx.TxInputs = []*protos.TxInput{vkit.In(e.RootTx.Txid, 0, owner, big.NewInt(9))}
+	tx.TxOutputs = []*protos.TxOutput{vkit.Out("C", big.NewInt(9), 0)}
+	n := vrt.Choice("signers", 2)
+	var signerAddr string
+	if n == 1 {
+		signerAddr = adr(vrt.Int("signer", 0, 2))
+		tx.AuthRequire = []string{c07Account + "/" + signerAddr}
+	}
+	digest, err := txhash.MakeTxDigestHash(tx)
+	vrt.Assert(err == nil, "digest-computed")
+	ni := 1 + vrt.Choice("initiator-signatures", 2)
+	islots := make([]c07sign, ni)
+	for i := 0; i < ni; i++ {
+		var si *protos.SignatureInfo
+		si, islots[i] = c07slot("isign")
+		tx.InitiatorSigns = append(tx.InitiatorSigns, si)
+	}
+	var aslot c07sign
+	if n == 1 {
+		var si *protos.SignatureInfo
+		si, aslot = c07slot("asign")
+		tx.AuthRequireSigns = []*protos.SignatureInfo{si}
+	}
+	id, err := txhash.MakeTransactionID(tx)
+	vrt.Assert(err == nil, "id-computed")
+	tx.Txid = id
+	ok, verr := s.ImmediateVerifyTx(tx, false)
+	accepted := ok && verr == nil
+	vrt.Cover("accepted", accepted)
+	vrt.Cover("rejected", !accepted)
+	if !accepted {
+		return
+	}
+	verified := map[string]bool{}
+	has1, has2 := false, false
+	for i := 0; i < ni; i++ {
+		vrt.Assert(islots[i].pk <= 2, "accepted-only-with-well-formed-initiator-keys")
+		a := adr(islots[i].pk)
+		vrt.Assert(islots[i].valid(a, digest), "accepted-only-if-every-initiator-slot-carries-a-valid-signature-of-its-key")
+		verified[a] = true
+		has1 = has1 || a == "Adr1"
+		has2 = has2 || a == "Adr2"
+	}
+	vrt.Assert(has1 && has2, "accepted-only-if-the-initiator-account-rule-is-satisfied-by-its-signers")
+	if n == 1 {
+		vrt.Assert(verified[signerAddr] || aslot.valid(signerAddr, digest), "accepted-only-with-valid-signature-of-every-listed-signer")
+		verified[signerAddr] = true
+	}
+	vrt.Assert(verified[owner], "accepted-only-if-output-owner-signed")
+}
+
+func VerifC07AccountInitiator() { verifC07AccountInitiator(3) }
+
 func VerifC07XSign() { verifC07XSign(3, 2) }
 
 func VerifC07AcceptQuick()    { verifC07Accept(3, 1) }
